@@ -17,9 +17,10 @@ import re
 
 import vlib
 import gen_svgtree
+import gen_readsites
 
 NS = 'xmlns="http://www.w3.org/2000/svg" xmlns:xlink="http://www.w3.org/1999/xlink"'
-MY_TIES = ('SvgTables', 'gen_svgtree', 'units.convert_length', 'gen_units', 'translate.py')
+MY_TIES = ('SvgTables', 'gen_svgtree', 'units.convert_length', 'gen_units', 'translate.py', 'ReadSites', 'gen_readsites')
 
 
 def hexs(s):
@@ -62,6 +63,27 @@ class Tables:
         self.css_only_attr = self.ctor2aname.get(t.get('css_only_value_attr', 'ImageRendering'), 'image-rendering')
         self.defaults = ({self.ctor2aname[a]: v for a, v in t['inherit_default']} if 'inherit_default' in t
                          else dict(SPEC_INITIAL))
+        # converter read sites (tools/gen_readsites.py): (file, fn, AId ctor, method, reader type); element kinds per function
+        try:
+            x = gen_readsites.extract(rd, strict=False)
+            self.sites = x['sites']
+            self.site_errors = x['errors']
+            ctor2ename = {c: n for n, c in t['enames']}
+            self.site_kinds = {fn: [ctor2ename[k] for k in ks if k in ctor2ename]
+                               for fn, ks in gen_readsites.site_elements(x).items()}
+        except (gen_readsites.Missing, gen_svgtree.Missing, OSError, KeyError, ValueError) as e:
+            self.sites, self.site_errors, self.site_kinds = [], [str(e)], {}
+
+    def read_kinds(self):
+        """[(element name, property name)] for every value read site whose function serves known element kinds"""
+        out = []
+        for f, fn, a, how, reader, walk in self.sites:
+            if reader == 'presence' or a not in self.ctor2aname:
+                continue
+            for k in self.site_kinds.get(fn, []):
+                if (k, self.ctor2aname[a]) not in out:
+                    out.append((k, self.ctor2aname[a]))
+        return out
 
     def A(self, name):
         return 'A_' + self.aname2ctor[name]
@@ -538,6 +560,233 @@ def run_cascade(ctx, binp, T, n_docs):
     return True
 
 
+# ---------------------------------------------------------------------------------------- selector (K3)
+# Documents with style sheets over ALL selector forms simplecss supports; here the model does the matching
+# (Model.CascadeSel.sel_matches), the rule sort (sort_rules) and the cascade; Python only prints the selector AST.
+S_TAGS = [t for t in K_TAGS if t != 'a']
+S_CLASSES = ['c1', 'c2', 'c1 c2', 'c3 c1', 'c-x', 'c1  c4']
+S_ATTRS = {'foo': ['v', 'en', 'en-US', 'a b', 'b', 'enx'], 'data-k': ['v', 'w', 'v-1'], 'lang': ['en', 'en-GB', 'de']}
+S_PROPS = ['fill', 'stroke', 'opacity', 'stroke-width', 'color', 'fill-rule', 'visibility', 'marker-start', 'stop-color', 'mask']
+
+
+def s_simple(rng, m):
+    """-> (type or None, explicit star?, subs); subs: ('id', v) | ('class', v) | ('attr', name, op, v) | ('pseudo', text)"""
+    typ = None
+    r = rng.below(6)
+    if r < 2 and m is not None:
+        typ = m.tag
+    elif r == 2:
+        typ = rng.choice(S_TAGS)
+    subs = []
+    for _ in range(rng.choice([0, 1, 1, 1, 2, 3])):
+        k = rng.below(10)
+        if k < 2:
+            subs.append(('id', m.ident() if (m is not None and m.ident() and rng.below(4)) else 'i%d' % (1 + rng.below(6))))
+        elif k < 4:
+            cl = (m.classes() if m is not None else []) or ['c1']
+            subs.append(('class', rng.choice(cl) if rng.below(4) else rng.choice(['c1', 'c2', 'c9', 'c'])))
+        elif k < 8:
+            name = rng.choice(sorted(S_ATTRS) + ['id', 'class', 'fill'])
+            have = m.get(name) if m is not None else None
+            op = rng.choice(['', '=', '~=', '|='])
+            if have is not None and rng.below(3):
+                v = rng.choice([have, have.split(' ')[0], have.split('-')[0]])
+            else:
+                v = rng.choice(S_ATTRS.get(name, ['v', 'c1', 'i1', 'red']))
+            subs.append(('attr', name, op, v))
+        else:
+            subs.append(('pseudo', rng.choice(['first-child', 'first-child', 'hover', 'lang(en)', 'link'])))
+    return (typ, rng.below(2) == 0, subs)
+
+
+def s_selector(rng, nodes):
+    n = rng.choice(nodes)
+    comps = [('', s_simple(rng, n if rng.below(4) else None))]
+    cur = n
+    for _ in range(rng.choice([0, 0, 1, 1, 2])):
+        comb = rng.choice([' ', ' ', '>', '>', '+'])
+        rel = None
+        if cur is not None:
+            if comb == '+':
+                sib = cur.parent.children if cur.parent is not None else []
+                i = sib.index(cur) if cur in sib else 0
+                rel = sib[i - 1] if i > 0 else None
+            elif comb == '>':
+                rel = cur.parent
+            else:
+                anc = list(_ancestors(cur))
+                rel = rng.choice(anc) if anc else None
+        # components are stored first-to-last; we build from the subject backwards
+        comps[0] = (comb, comps[0][1])
+        comps.insert(0, ('', s_simple(rng, rel if rng.below(5) else None)))
+        cur = rel
+    return comps
+
+
+def s_sel_text(sel):
+    out = ''
+    for comb, (typ, star, subs) in sel:
+        out += {'': '', ' ': ' ', '>': ' > ', '+': ' + '}[comb]
+        out += typ if typ else ('*' if (star or not subs) else '')
+        for sb in subs:
+            if sb[0] == 'id':
+                out += '#' + sb[1]
+            elif sb[0] == 'class':
+                out += '.' + sb[1]
+            elif sb[0] == 'attr':
+                out += '[%s]' % sb[1] if sb[2] == '' else '[%s%s"%s"]' % (sb[1], sb[2], sb[3])
+            else:
+                out += ':' + sb[1]
+    return out
+
+
+def s_sel_coq(sel):
+    comb_c = {'': 'CNone', ' ': 'CDescendant', '>': 'CChild', '+': 'CAdjacent'}
+    ps = {'first-child': 'PFirstChild', 'hover': 'PHover', 'link': 'PLink', 'lang(en)': '(PLang "en")'}
+    ops = {'': 'OpExists', '=': 'OpMatches', '~=': 'OpContains', '|=': 'OpStartsWith'}
+    out = []
+    for comb, (typ, star, subs) in sel:
+        ss = []
+        for sb in subs:
+            if sb[0] == 'id':
+                ss.append('SubAttr "id" (OpMatches %s)' % coq_str(sb[1]))
+            elif sb[0] == 'class':
+                ss.append('SubAttr "class" (OpContains %s)' % coq_str(sb[1]))
+            elif sb[0] == 'attr':
+                ss.append('SubAttr %s %s' % (coq_str(sb[1]), 'OpExists' if sb[2] == '' else '(%s %s)' % (ops[sb[2]], coq_str(sb[3]))))
+            else:
+                ss.append('SubPseudo %s' % ps[sb[1]])
+        out.append('{| c_comb := %s; c_sel := {| s_type := %s; s_subs := [%s] |} |}' % (
+            comb_c[comb], ('Some %s' % coq_str(typ)) if typ else 'None', '; '.join(ss)))
+    return '[' + '; '.join(out) + ']'
+
+
+def s_gen(rng, T, ci):
+    root = XNode('svg')
+    nodes = [root]
+    for _ in range(3 + rng.below(7)):
+        par = rng.choice(nodes)
+        d = len(list(_ancestors(par)))
+        if d > 3:
+            par = root
+        nodes.append(XNode(rng.choice(S_TAGS), par))
+    ids = 0
+    for n in nodes:
+        names = []
+        if rng.below(3) > 0:
+            ids += 1
+            names.append(('id', 'i%d' % ids))
+        if rng.below(2):
+            names.append(('class', rng.choice(S_CLASSES)))
+        for a in sorted(S_ATTRS):
+            if rng.below(4) == 0:
+                names.append((a, rng.choice(S_ATTRS[a])))
+        for _ in range(rng.below(3)):
+            nm = rng.choice(S_PROPS)
+            if nm not in [k for k, _ in names]:
+                names.append((nm, rng.choice(['a0', 'inherit', 'a1'])))
+        if rng.below(4) == 0:
+            n.style = [(rng.choice(S_PROPS), 's%d' % rng.below(3), rng.below(3) == 0)]
+            names.append(('style', decl_text(n.style)))
+        rng.shuffle(names)
+        n.attrs = names
+    k = [0]
+
+    def rule():
+        ds = []
+        for _ in range(1 + rng.below(2)):
+            k[0] += 1
+            ds.append((rng.choice(S_PROPS + ['marker']), 'r%d' % k[0], rng.below(10) < 3))
+        return ([s_selector(rng, nodes) for _ in range(1 + (rng.below(5) == 0))], ds)
+    inj = [rule() for _ in range(rng.below(3))] if rng.below(3) == 0 else []
+    doc_rules = [rule() for _ in range(2 + rng.below(5))]
+    return root, nodes, inj, doc_rules
+
+
+def s_sheet_text(rules):
+    return ' '.join("%s{%s}" % (', '.join(s_sel_text(x) for x in sels), decl_text(ds)) for sels, ds in rules)
+
+
+def run_selector(ctx, binp, T, n_docs):
+    rng = ctx.rng
+    cases = []
+    for ci in range(n_docs):
+        root, nodes, inj, doc_rules = s_gen(rng, T, ci)
+        # the style element is the LAST child of the root: it precedes no element (sibling positions undisturbed)
+        xml = render_xml(root)
+        xml = xml[:-len('</svg>')] + '<style>%s</style></svg>' % s_sheet_text(doc_rules)
+        cases.append((xml, inj, doc_rules, root))
+    outs = ctx.rvh_batch(binp, 'svgtree', ["%s\t%s" % (('css=' + hexs(s_sheet_text(c[1]))) if c[1] else '-', c[0]) for c in cases])
+    coq_cases, idx_map = [], []
+    stats = dict(rules=0, matched_rule_elements=0, combinators=0, attribute_selectors=0, pseudo=0)
+    for i, ((xml, inj, doc_rules, root), o) in enumerate(zip(cases, outs)):
+        try:
+            r = json.loads(o)
+        except (TypeError, ValueError):
+            r = {'error': 'unparsable harness output'}
+        replay = dict(op='svgtree', doc=xml, injected_css=s_sheet_text(inj) if inj else None)
+        if 'dump' not in r:
+            ctx.violation("selector: svgtree construction failed on a generated document: %s" % str(r)[:200], replay)
+            continue
+        elems = parse_dump(r['dump'])
+        order = list(all_nodes(root))
+        if [t for t, _ in elems] != [n.tag for n in order]:
+            ctx.violation("selector: element sequence of the svgtree differs from the document: %s vs %s"
+                          % ([t for t, _ in elems], [n.tag for n in order]), replay)
+            continue
+        rules_coq = []
+        for sels, ds in list(inj) + list(doc_rules):
+            dl = []
+            for name, v, imp in ds:
+                if name == 'marker':
+                    dl.append("dmarker %s %s" % (coq_str(v), 'true' if imp else 'false'))
+                else:
+                    dl.append("dc %s %s %s" % (T.A(name), coq_str(v), 'true' if imp else 'false'))
+            for sel in sels:
+                rules_coq.append("{| r_sel := %s; r_decls := [%s] |}" % (s_sel_coq(sel), '; '.join(dl)))
+                stats['rules'] += 1
+                stats['combinators'] += len(sel) - 1
+                stats['attribute_selectors'] += sum(1 for _, (_, _, sb) in sel for x in sb if x[0] == 'attr')
+                stats['pseudo'] += sum(1 for _, (_, _, sb) in sel for x in sb if x[0] == 'pseudo')
+        items = []
+        for n in order:
+            par = 'None' if n.parent is None else 'Some %d%%nat' % order.index(n.parent)
+            info = '{| ei_tag := %s; ei_attrs := [%s] |}' % (coq_str(n.tag), '; '.join('(%s, %s)' % (coq_str(k), coq_str(v)) for k, v in n.attrs))
+            attrs = ['(%s, %s)' % (T.A(k), coq_str(v)) for k, v in n.attrs if k in T.aname2ctor]
+            sty = ["dc %s %s %s" % (T.A(nm), coq_str(v), 'true' if imp else 'false') for nm, v, imp in n.style]
+            items.append('{| si_parent := %s; si_info := %s; si_x := xe %s false [%s] [] [%s] |}' % (
+                par, info, T.E(n.tag), '; '.join(attrs), '; '.join(sty)))
+        stats['matched_rule_elements'] += sum(1 for _, at in elems for a in at if re.fullmatch(r"r\d+", a[1]))
+        ctx.note_case('selector/' + xml + (s_sheet_text(inj) if inj else ''),
+                      nontrivial=any(re.fullmatch(r"r\d+", a[1]) for _, at in elems for a in at))
+        coq_cases.append("([%s],\n  [%s],\n  %s)" % (';\n    '.join(rules_coq), ';\n    '.join(items), impl_coq(elems, T)))
+        idx_map.append(i)
+    ctx.cov['selector_cases'] = len(cases)
+    ctx.cov['selector_stats'] = stats
+    if cases:
+        ctx.add_sample(dict(op='selector', doc=cases[0][0], injected_css=s_sheet_text(cases[0][1]) if cases[0][1] else None))
+    if not coq_cases:
+        return False
+    body = ("From Coq Require Import String.\nLocal Open Scope string_scope.\n"
+            "Definition cases : list (list rule * list sitem * list (list attr)) := [\n%s\n].\n"
+            "Eval vm_compute in (bad_indices sel_case_ok cases).\n" % ";\n".join(coq_cases))
+    rc, out = ctx.coq_eval('k_selector', body, ['Model.Base', 'Model.Corr', 'Gen.SvgTables', 'Model.CascadeBase', 'Model.Cascade',
+                                                'Model.CascadeSel'])
+    bad = ctx.parse_N_list(out) if rc == 0 else None
+    if bad is None:
+        ctx.log("selector: model evaluation failed:\n" + out[-1500:])
+        return False
+    ctx.cov['correspondence_cases'] = ctx.cov.get('correspondence_cases', 0) + len(coq_cases)
+    for b in bad[:3]:
+        i = idx_map[b]
+        xml, inj, doc_rules, root = cases[i]
+        ctx.violation("selector: the svgtree attribute lists differ from the model's selector matching (sel_matches) + rule order "
+                      "(sort_rules) + cascade over the rule list",
+                      dict(op='svgtree', doc=xml, injected_css=s_sheet_text(inj) if inj else None,
+                           impl=[[t, a] for t, a in parse_dump(json.loads(outs[i])['dump'])], model_items=coq_cases[b][:4000]))
+    return True
+
+
 # ---------------------------------------------------------------------------------------- find-attr
 FA_PROPS = {'fill-rule': ['nonzero', 'evenodd'], 'stroke-linecap': ['butt', 'round', 'square'],
             'stroke-linejoin': ['miter', 'miter-clip', 'round', 'bevel']}
@@ -795,9 +1044,13 @@ def template():
                 E('stop', 's1', [('offset', '0.1')]), E('stop', 's2', [('offset', '0.9')])]),
             E('clipPath', 'cp1', [], [E('circle', 'cc', [('cx', '60'), ('cy', '60'), ('r', '50')])]),
             E('mask', 'mk1', [], [E('ellipse', 'me', [('cx', '70'), ('cy', '70'), ('rx', '60'), ('ry', '50')])]),
-            E('filter', 'f1', [], [E('feFlood', 'ff', [])]),
-            E('filter', 'f2', [], [E('feDiffuseLighting', 'fl', [('surfaceScale', '1')], [
-                E('feDistantLight', 'fd', [('azimuth', '45'), ('elevation', '30')])])]),
+            E('filter', 'f1', [], [E('feFlood', 'ff', [('result', 'a')]),
+                                   E('feImage', 'fi', [('xlink:href', PNG), ('result', 'b')]),
+                                   E('feDropShadow', 'fs', [('in', 'a'), ('dx', '1'), ('dy', '2'), ('stdDeviation', '1')])]),
+            E('filter', 'f2', [], [E('feDiffuseLighting', 'fl', [('surfaceScale', '1'), ('result', 'a')], [
+                E('feDistantLight', 'fd', [('azimuth', '45'), ('elevation', '30')])]),
+                E('feSpecularLighting', 'fp', [('in', 'SourceGraphic'), ('specularExponent', '2')], [
+                    E('fePointLight', 'fq', [('x', '50'), ('y', '60'), ('z', '20')])])]),
             E('marker', 'm1', [('markerWidth', '6'), ('markerHeight', '6'), ('refX', '3'), ('refY', '3')], [
                 E('polygon', 'mp', [('points', '0,0 6,3 0,6')])]),
         ]),
@@ -823,7 +1076,9 @@ PINNED = [('me', 'fill', 'white'), ('r1', 'fill', 'url(#lg1)'), ('pl1', 'filter'
           ('p1', 'marker-mid', 'url(#m1)'), ('p1', 'stroke', 'blue'), ('g1', 'color', '#123456')]
 RELEVANT = {
     'stop': ['stop-color', 'stop-opacity'], 'feFlood': ['flood-color', 'flood-opacity'],
+    'feDropShadow': ['flood-color', 'flood-opacity', 'color-interpolation-filters'],
     'feDiffuseLighting': ['lighting-color', 'color-interpolation-filters'], 'filter': ['color-interpolation-filters'],
+    'feSpecularLighting': ['lighting-color', 'color-interpolation-filters'], 'feImage': ['image-rendering'],
     'circle': ['clip-rule', 'fill-rule'], 'text': ['font-family', 'font-size', 'font-style', 'font-weight', 'font-stretch',
                                                     'font-variant', 'letter-spacing', 'word-spacing', 'text-anchor',
                                                     'text-decoration', 'writing-mode', 'text-rendering',
@@ -858,6 +1113,17 @@ class Oracle:
         self.rng = rng
         self.props = list(T.presentation)
         self.generic = [p for p in self.props if p not in POOLS]
+        # every property at every element kind that reads it: the hand table RELEVANT is completed from the converter's
+        # read sites (filter primitive dispatch), so a new reading primitive is exercised without an edit here
+        self.relevant = {k: list(v) for k, v in RELEVANT.items()}
+        tags = set(e.tag for e in els(template()))
+        self.uncovered_kinds = []
+        for kind, p in T.read_kinds():
+            if kind in tags:
+                if p not in self.relevant.setdefault(kind, []):
+                    self.relevant[kind].append(p)
+            elif (kind, p) not in self.uncovered_kinds:
+                self.uncovered_kinds.append((kind, p))
 
     def pool(self, p):
         return POOLS.get(p, GENERIC_POOL)
@@ -887,15 +1153,15 @@ class Oracle:
                 p, v = rng.choice(GROUP_FORMING)
                 if e.winner(p) is None:
                     e.decls.append(self.new_decl(p, v))
-        for ident, p in (('s1', 'stop-color'), ('s2', 'stop-color'), ('ff', 'flood-color'), ('p1', 'fill'), ('l1', 'stroke'),
-                         ('t1', 'fill')):
+        for ident, p in (('s1', 'stop-color'), ('s2', 'stop-color'), ('ff', 'flood-color'), ('fs', 'flood-color'), ('p1', 'fill'),
+                         ('l1', 'stroke'), ('t1', 'fill')):
             e = by_id(root, ident)
             if rng.below(3) == 0 and e.winner(p) is None:
                 e.decls.append(self.new_decl(p, rng.choice(ALPHA_COLORS)))
         for e in els(root):
             k = rng.choice([0, 0, 1, 1, 2, 3, 5])
             for _ in range(k):
-                rel = RELEVANT.get(e.tag)
+                rel = self.relevant.get(e.tag)
                 p = rng.choice(rel) if rel and rng.below(3) > 0 else rng.choice(self.props)
                 if e.winner(p) is not None:
                     continue
@@ -1484,10 +1750,65 @@ def inherit_triples(orc, rng, n_per_prop):
             decl = ' %s="%s"' % (p, v)
             a = doc(decl, {})
             lvl = rng.below(3)
-            out.append((a, doc('', {lvl: decl}), 'inherit-triple-ancestor-%d' % (3 - lvl)))
+            out.append((a, doc('', {lvl: decl}), 'inherit-triple-ancestor-%d:%s' % (3 - lvl, p)))
             if p in orc.T.allows_inherit and not context_dependent(p, v):
-                out.append((a, doc(' %s="inherit"' % p, {2: decl}), 'inherit-triple-keyword'))
-                out.append((a, doc(' style="%s:inherit"' % p, {rng.below(3): decl}), 'inherit-triple-keyword-style'))
+                out.append((a, doc(' %s="inherit"' % p, {2: decl}), 'inherit-triple-keyword:%s' % p))
+                out.append((a, doc(' style="%s:inherit"' % p, {rng.below(3): decl}), 'inherit-triple-keyword-style:%s' % p))
+    return out
+
+
+def notation_alternatives(p, v, dpi):
+    """other spellings of value v of property p that must resolve to the same thing: [(kind, text)]"""
+    alts = []
+    if v in COLORS:
+        alts += [('colour', a) for a in COLORS[v] if a != v]
+    if v in NUM_ALT and p != 'font-weight':
+        alts += [('number', a) for a in NUM_ALT[v]]
+    if p.endswith('opacity') and v in OPAC_PCT:
+        alts.append(('percent', OPAC_PCT[v]))
+    if p in LENGTH_PROPS and re.fullmatch(r"(-?[\d.]+)( -?[\d.]+)*", v):
+        fac = {'in': float(dpi), 'cm': dpi / 2.54, 'mm': dpi / 25.4, 'pt': dpi / 72.0, 'pc': dpi / 6.0, 'px': 1.0}
+        for u in sorted(fac):
+            alts.append(('unit', ' '.join("%s%s" % (repr(float(tok) / fac[u]), u) for tok in v.split())))
+    return alts
+
+
+def notation_sweep(orc, rng, full):
+    """Every property at every element kind of the template that reads it (RELEVANT completed from the source-derived
+    read-site table), every pool value that has another notation, in every notation (quick tier: the percentage
+    always, plus one other notation per value): the value written canonically vs re-spelled, alone on the element,
+    everything of the template referenced.  -> [(dpi, canonical, variant, injected css, [tag])]"""
+    out = []
+    root0 = template()
+    for ident, p, v in PINNED:
+        by_id(root0, ident).decls.append(orc.new_decl(p, v))
+    seen = set()
+    k = 0
+    for e0 in list(els(root0)):
+        for p in orc.relevant.get(e0.tag, []):
+            if (e0.tag, p) in seen or e0.winner(p) is not None or p not in orc.props:
+                continue
+            seen.add((e0.tag, p))
+            for v in orc.pool(p):
+                dpi = (72, 96, 300)[k % 3]
+                alts = notation_alternatives(p, v, dpi)
+                if not full and len(alts) > 1:
+                    must = [a for a in alts if a[0] == 'percent']
+                    rest = [a for a in alts if a[0] != 'percent']
+                    alts = must + [rng.choice(rest)]
+                for kind, alt in alts:
+                    k += 1
+                    root = copy.deepcopy(root0)
+                    e = by_id(root, e0.id)
+                    d = orc.new_decl(p, alt, cv=v)
+                    where = ('attr', 'style', 'css')[k % 3]
+                    if where == 'attr' and not orc.attr_ok(p, alt):
+                        where = 'style'
+                    d.update(where=where, sel=('id', 'class')[k % 2])
+                    e.decls.append(d)
+                    cd, _ = orc.render(root, True)
+                    vd, inj = orc.render(root, False)
+                    out.append((dpi, cd, vd, inj, ['notation-sweep-%s:%s@%s %s -> %s' % (kind, p, e0.tag, v, alt)]))
     return out
 
 
@@ -1495,6 +1816,15 @@ def run_spelling(ctx, binp, T, n_base, n_comp, search=False):
     rng = ctx.rng
     orc = Oracle(T, rng)
     pairs = []       # (dpi, canon doc, variant doc, inj css, tags, known class or None)
+    # the directed families first (a failing read site is looked up among the first reported differences)
+    for cd, vd, tag in inherit_triples(orc, rng, 1 if n_base <= 70 else 4):
+        pairs.append((96, cd, vd, None, [tag], None))
+    sweep = notation_sweep(orc, rng, full=(n_base > 70))
+    for dpi, cd, vd, inj, tags in sweep:
+        pairs.append((dpi, cd, vd, inj, tags, None))
+    ctx.cov['notation_sweep_pairs'] = len(sweep)
+    ctx.cov['read_site_kinds'] = dict(exercised=sorted("%s@%s" % (p, k) for k, ps in orc.relevant.items() for p in ps),
+                                      not_in_template=["%s@%s" % (p, k) for k, p in orc.uncovered_kinds])
     for b in range(n_base):
         base = orc.base()
         dpi = rng.choice([72, 96, 300])
@@ -1508,8 +1838,6 @@ def run_spelling(ctx, binp, T, n_base, n_comp, search=False):
             cd, _ = orc.render(v, True)
             vd, inj = orc.render(v, False)
             pairs.append((dpi, cd, vd, inj, applied, None))
-    for cd, vd, tag in inherit_triples(orc, rng, 1 if n_base <= 70 else 4):
-        pairs.append((96, cd, vd, None, [tag], None))
     for _ in range(max(2, n_base // 4)):
         dpi = rng.choice([72, 96, 300])
         for cls, root, desc in known_scenarios(orc, dpi):
@@ -1533,6 +1861,7 @@ def run_spelling(ctx, binp, T, n_base, n_comp, search=False):
             ja, jb = {'error': 'unparsable'}, {'error': 'unparsable'}
         replay = dict(op='tostring', dpi=dpi, canonical=cd, variant=vd, injected_css=inj, rewrites=tags)
         for t in ([cls] if cls else tags):
+            t = t.split(':')[0] if (t.startswith('notation-sweep') or t.startswith('inherit-triple')) else t
             hist[t] = hist.get(t, 0) + 1
         if 's' not in ja or 's' not in jb:
             if ja.get('error') and ja.get('error') == jb.get('error'):
@@ -1588,6 +1917,20 @@ def model_search(ctx, T):
         if i < len(T.t['aids']):
             names.append(T.ctor2aname[T.t['aids'][i]])
     return names
+
+
+def site_search(ctx, T):
+    """read sites that fail Model.CascadeSites.site_ok (C09_read_sites_notation / _uniform / C09_opacity_family_reader)"""
+    rc, out = ctx.coq_eval('search_sites', "Eval vm_compute in bad_sites.\n",
+                           ['Model.Base', 'Gen.SvgTables', 'Gen.ReadSites', 'Model.CascadeSites'])
+    bad = ctx.parse_N_list(out) if rc == 0 else None
+    res = []
+    for i in bad or []:
+        if i < len(T.sites):
+            f, fn, a, how, reader, walk = T.sites[i]
+            res.append(dict(file=f, function=fn, attribute=T.ctor2aname.get(a, a), method=how, reader=reader, lookup=walk,
+                            element_kinds=T.site_kinds.get(fn, [])))
+    return res
 
 
 def table_witness_pairs(names):
@@ -1657,6 +2000,7 @@ def run(ctx):
     if res['ok'] or 'Model/Cascade.v' not in res['failed']:
         model_ok = run_cascade(ctx, binp, T, 400 if quick else 2500)
         model_ok = run_find_attr(ctx, binp, T, 250 if quick else 1500) and model_ok
+        model_ok = run_selector(ctx, binp, T, 300 if quick else 2000) and model_ok
     nviol_before = len(ctx.violations)
     if quick and proof_ok:
         run_spelling(ctx, binp, T, 70, 8)
@@ -1669,6 +2013,33 @@ def run(ctx):
                       dict(failed_files=res['failed'], log_tail=res['log'][-2000:]), found_input=False)
     if not proof_ok:
         found = bool(ctx.violations)
+        bad_sites = site_search(ctx, T)
+        for b in bad_sites:
+            ctx.log("read site fails C09_read_sites_notation / C09_read_sites_uniform / C09_opacity_family_reader: %s" % b)
+        if bad_sites:
+            ctx.cov['bad_read_sites'] = bad_sites
+        for b in bad_sites[:4]:
+            # the notation sweep wrote this property at the element kinds of the site in every notation: name the site
+            # next to the concrete pair it exhibited
+            keys = ["%s@%s " % (b['attribute'], k) for k in b['element_kinds']] or [b['attribute'] + '@']
+            keys.append("inherit-triple-ancestor-1:%s," % b['attribute'])
+            keys.append("inherit-triple-ancestor-2:%s," % b['attribute'])
+            keys.append("inherit-triple-ancestor-3:%s," % b['attribute'])
+            wit = [v for v in ctx.violations if any(k in v[0] for k in keys)]
+            text = ("read site %s::%s reads `%s` as `%s` (%s, lookup: %s): C09_read_sites_notation / C09_read_sites_uniform / "
+                    "C09_opacity_family_reader / C09_inherited_read_through_ancestors / C09_length_sites_converted no longer "
+                    "hold for the source-derived site table"
+                    % (b['file'], b['function'], b['attribute'], b['reader'], b['method'], b['lookup']))
+            if wit:
+                try:
+                    w = json.load(open(wit[0][1]))
+                    ctx.violation(text + "; failing input: " + wit[0][0][:300], dict(site=b, witness=w.get('replay')))
+                    found = True
+                    continue
+                except (OSError, ValueError):
+                    pass
+            ctx.violation(text, dict(site=b, failed=res['failed']), found_input=False)
+            found = True
         names = model_search(ctx, T)
         if names:
             ctx.log("table theorems fail for: %s" % names)
@@ -1694,7 +2065,7 @@ def run(ctx):
         if not found:
             ctx.violation("C09 proof obligations no longer check: %s %s" % (res['failed'] + res['audit'], [b['name'] for b in broken]),
                           dict(failed_files=res['failed'], audit=res['audit'], broken_ties=broken, table_theorem_fails_for=names,
-                               log_tail=res['log'][-3000:]), found_input=False)
+                               bad_read_sites=bad_sites, log_tail=res['log'][-3000:]), found_input=False)
     ctx.cov['rule'] = (
         "cascade: random documents of 3-9 elements (22 element kinds, text/tspan, one use expansion; two thirds with a pile of 3-5 "
         "declarations of one property on one element from attribute / 1-4 CSS rules of differing specificity, sheet and order / style, "
